@@ -122,6 +122,12 @@ def units(tier):
             continue
         us.append(Unit('C05/D/path[%s,intercept=%s,w_init=%s,sparse=%s]' % (pen, fi, wi, sp), u_path,
                        dict(penalty=pen, X='corr32', fit_intercept=fi, with_init=wi, sparse=sp), wall_s=120, timeout_ms=8000))
+    for X, fi in (('corr32', False), ('corr32', True), ('gen32', True)):
+        us.append(Unit('C05/S/pn_linesearch[X=%s,intercept=%s]' % (X, fi), ST.u_pn_linesearch, dict(X=X, fit_intercept=fi),
+                       wall_s=120, timeout_ms=8000, patched=True))
+    for fi in (False, True):
+        us.append(Unit('C05/S/group_pn_linesearch[intercept=%s]' % fi, ST.u_pn_linesearch,
+                       dict(X='corr32', fit_intercept=fi, group=True), wall_s=120, timeout_ms=8000, patched=True))
     return us
 
 
